@@ -41,6 +41,8 @@ def run(tier, seed, replay=None):
             p = g.shifted_nested_plan()
         elif c < 0.8:
             p = g.wildcard_prefix_plan()
+        elif c < 0.88:
+            p = g.assoc_subsets_plan()
         else:
             p = g.basic(nfam=rng.choice([1, 1, 2]), max_members=rng.choice([2, 3, 3]))
         if 2 <= len(p.blocks()) <= 6:
